@@ -6,7 +6,7 @@ import shutil
 import gen
 import mockca
 import vlib
-from ext import idnagen
+from ext import c06nb, idnagen
 
 FINISH = dict(
     level="proof",
@@ -26,7 +26,10 @@ FINISH = dict(
         "(unknown to the judge: the whole admissible interval is accepted), SAN text rendering",
     ],
     rule="triples (certificate on disk, key file, configuration): notAfter from -80 years to +140 years "
-         "(boundary-biased around 0, renew_delay, 2^31 s and 24855 days), SAN sets that are permutations, "
+         "(boundary-biased around 0, renew_delay, 2^31 s and 24855 days), notBefore from 40 years ago to 30 years AHEAD of "
+         "the local clock (far past, 1 h ago, seconds ago, now, seconds / minutes / days / years ahead: py/ext/c06nb.py; in the "
+         "triples, the chains, the placements and in loop scenarios with a mock CA whose clock runs ahead — the judge is "
+         "given notAfter only), SAN sets that are permutations, "
          "supersets, subsets of the configured identifiers incl. wildcard, IDN, mixed case, IPv4/IPv6 "
          "textual forms; either file absent or corrupt; renew_delay and random_early_renew incl. 0 and "
          "values beyond the lifetime. The real schedule_renewal result is judged by Spec.C06.holdsOutcome "
@@ -127,16 +130,18 @@ def gen_triple(rng, idx, root):
     elif files < 0.23:
         present = "corrupt-cert"
     d = os.path.join(root, "t%d" % idx)
+    # when the validity BEGINS (py/ext/c06nb.py): far past … years ahead of the local clock, crossed with everything above
+    nb_class, nb = c06nb.pick(rng)
     return {"dir": d, "name": "crt", "key_type": "ecdsa-p256", "ids": ids, "delay_s": delay, "rer_s": rer,
             "cert_dns": cert_dns, "cert_ips": cert_ips, "not_after_offset": na, "present": present,
-            "shape": shape}
+            "shape": shape, "not_before_offset": nb, "nb_class": nb_class}
 
 
 def prepare(helper, t):
     os.makedirs(t["dir"], exist_ok=True)
     r = helper.call({"op": "selfsigned", "dns": t["cert_dns"], "ips": t["cert_ips"],
                      "not_after_offset": t["not_after_offset"],
-                     "not_before_offset": min(-3600, t["not_after_offset"] - 3600)})
+                     "not_before_offset": c06nb.offset_for(t, min(-3600, t["not_after_offset"] - 3600))})
     if "err" in r:
         return r
     base = os.path.join(t["dir"], "crt_ecdsa-p256")
@@ -235,6 +240,7 @@ def check(ctx, triples, binary=None, tag=""):
         ctx.case(canon, nontrivial=t["present"] == "both")
         ctx.count(tag + "files:" + t["present"])
         ctx.count(tag + "sans:" + t["shape"])
+        c06nb.count(ctx, tag, t, ":files=%s:sans=%s" % (t["present"], t["shape"]))
         if any(x["type"] == "dns" and any(ord(c) > 127 for c in x["value"]) for x in t["ids"]):
             ctx.count(tag + "ids:unicode-spelling")
             if t["shape"] in ("exact", "permuted", "superset") and t["present"] == "both":
@@ -259,9 +265,11 @@ def check(ctx, triples, binary=None, tag=""):
                          "outcome:now" if i.get("ok_ns") == "0" else "outcome:wait"))
         if not v.get("holds"):
             ctx.violation("schedule_renewal returned %s; the property allows [%s, %s] (files %s, sans %s, "
-                          "notAfter in %d s, delay %d s, rer %d s)" % (
+                          "notAfter in %d s, delay %d s, rer %d s, notBefore %s)" % (
                               i.get("ok_ns", i.get("err")), v.get("model_lo"), v.get("model_hi"), t["present"],
-                              t["shape"], t["not_after_offset"], t["delay_s"], t["rer_s"]), replay_obj)
+                              t["shape"], t["not_after_offset"], t["delay_s"], t["rer_s"],
+                              "%s (%+d s from now)" % (t.get("nb_class"), t["not_before_offset"])
+                              if t.get("not_before_offset") is not None else "in the past"), replay_obj)
         elif not v.get("fresh_ok", True):
             ctx.violation("a fresh covering certificate is renewed at once", replay_obj)
     ctx.traces += len(triples)
